@@ -678,14 +678,14 @@ func (k Keeper) SetOracleAttestation(ctx context.Context, operatorAddress string
 		k.Logger(ctx).Info("Error getting EVM address from operator address", "error", err)
 		return err
 	}
-	// get the last saved bridge validator set
-	lastSavedBridgeValidators, err := k.BridgeValset.Get(ctx)
+	// get the bridge validator set the snapshot was taken under
+	snapshotBridgeValidators, err := k.GetSnapshotBridgeValidators(ctx, snapshot)
 	if err != nil {
-		k.Logger(ctx).Info("Error getting last saved bridge validators", "error", err)
+		k.Logger(ctx).Info("Error getting bridge validators of the snapshot", "error", err)
 		return err
 	}
 	// set the signature in the oracle attestation map by finding the index of the operator address
-	for i, val := range lastSavedBridgeValidators.BridgeValidatorSet {
+	for i, val := range snapshotBridgeValidators.BridgeValidatorSet {
 		if bytes.Equal(val.EthereumAddress, ethAddress.EVMAddress) {
 			snapshotToSigsMap, err := k.SnapshotToAttestationsMap.Get(ctx, snapshot)
 			if err != nil {
@@ -701,6 +701,33 @@ func (k Keeper) SetOracleAttestation(ctx context.Context, operatorAddress string
 		}
 	}
 	return nil
+}
+
+// GetSnapshotBridgeValidators returns the validator set whose order the attestation slots of a snapshot follow:
+// the set of the validator checkpoint the snapshot commits to. A new checkpoint may have been saved between the
+// creation of the snapshot and the arrival of its attestations, so this is not always the last saved set.
+func (k Keeper) GetSnapshotBridgeValidators(ctx context.Context, snapshot []byte) (types.BridgeValidatorSet, error) {
+	bridgeValidators, err := k.BridgeValset.Get(ctx)
+	if err != nil {
+		return bridgeValidators, err
+	}
+	snapshotData, err := k.AttestSnapshotDataMap.Get(ctx, snapshot)
+	if err != nil {
+		return bridgeValidators, nil
+	}
+	rng := new(collections.Range[uint64]).EndInclusive(snapshotData.AttestationTimestamp).Descending()
+	err = k.ValidatorCheckpointParamsMap.Walk(ctx, rng, func(timestamp uint64, params types.ValidatorCheckpointParams) (bool, error) {
+		if !bytes.Equal(params.Checkpoint, snapshotData.ValidatorCheckpoint) {
+			return false, nil
+		}
+		valset, err := k.BridgeValsetByTimestampMap.Get(ctx, timestamp)
+		if err != nil {
+			return true, err
+		}
+		bridgeValidators = valset
+		return true, nil
+	})
+	return bridgeValidators, err
 }
 
 func (k Keeper) GetEVMAddressByOperator(ctx context.Context, operatorAddress string) ([]byte, error) {
